@@ -89,6 +89,8 @@ def gen_cases(tier):
         yield ('vcard', first, n)
     yield ('pairs', tier)
     yield ('multi',)
+    yield ('adr',)
+    yield ('mailto-breaks',)
     yield ('long',)
     yield ('geo',)
     yield ('mailto',)
@@ -235,6 +237,14 @@ def vcard_one(kw, acc, symbol=False):
                 vals = [ln.split(':', 1)[1] for ln in lines if ln.split(':', 1)[0] == prop]
                 if len(vals) != 1 or unesc(vals[0]) != v.replace('\r', ''):
                     problems.append('%s value %r does not come back from %r' % (prop, v[:40], vals[:1]))
+    if got == names and 'ADR' in names:
+        comps = [kw.get(a) or '' for a in VC_ADR]
+        if all(re.fullmatch(r'[A-Za-z0-9]*', c) for c in comps):
+            # RFC 2426 3.2.1: post office box; extended address; street; locality; region; postal code; country
+            want = ';'.join([comps[0], ''] + comps[1:])
+            vals = [ln.split(':', 1)[1] for ln in lines if ln.split(':', 1)[0] == 'ADR']
+            if vals != [want]:
+                problems.append('ADR value %r, the supplied components in RFC 2426 order are %r' % (vals, want))
     acc.eval(case, nontrivial=True, outcome=not problems, state=('vcard', tuple(sorted(kw))))
     acc.count('payloads')
     if problems:
@@ -318,6 +328,30 @@ def run_case(case, acc):
             mecard_one({'name': 'N', 'birthday': b}, acc, symbol=True)
         for b in (d, '2020-02-29'):
             vcard_one({'name': 'N', 'displayname': 'D', 'birthday': b, 'rev': b, 'lat': 1.5, 'lng': -2.25, 'pobox': 'p', 'country': 'c;d'}, acc, symbol=True)
+    elif kind == 'adr':
+        # every subset of the address components, each with its own value: the position of a component identifies it
+        for bits in range(1, 1 << len(ADR)):
+            kw = {'name': 'N'}
+            for i, a in enumerate(ADR):
+                if bits >> i & 1:
+                    kw[a] = '%s%d' % (a[:3], i)
+            mecard_one(kw, acc, symbol=(bits % 17 == 0))
+        for bits in range(1, 1 << len(VC_ADR)):
+            kw = {'name': 'N', 'displayname': 'D'}
+            for i, a in enumerate(VC_ADR):
+                if bits >> i & 1:
+                    kw[a] = '%s%d' % (a[:3], i)
+            vcard_one(kw, acc, symbol=(bits % 17 == 0))
+    elif kind == 'mailto-breaks':
+        # line breaks and the other characters str.splitlines() treats as one, alone, doubled, leading and trailing
+        brk = ['\n', '\r', '\r\n', '\n\r', '\x0b', '\x0c', '\x1c', '\x85', '\u2028', '\u2029', '\t']
+        texts = []
+        for b in brk:
+            texts += ['a' + b + 'b', b, 'a' + b, b + 'a', 'a' + b + b + 'b', 'a' + b + 'b' + b]
+        for t in texts:
+            mailto_one(dict(to='a@b.c', body=t), acc)
+            mailto_one(dict(to='a@b.c', subject=t), acc)
+            mailto_one(dict(to=['a@b.c', 'd@e.f'], cc='c@c.c', subject='s', body=t), acc)
     elif kind == 'geo':
         geo_case(acc)
     elif kind == 'mailto':
